@@ -37,7 +37,9 @@ package pkcs9
 //@   modifies nothing
 //@
 //@ func unpackTokenInfo
-//@   property C10
+//@   property C10 C11
+//@   nopanic
+//@   requires psd != nil
 //@   ensures @info_present_on_success ret1 == nil ==> ret0 != nil
 //@   fresh ret0
 //@   modifies nothing
